@@ -113,74 +113,97 @@ func withHistory(g geom.Geometry, k int) geom.Geometry {
 	return g
 }
 
-// respare rebuilds every LineString and ring of g as a window (Sequence.Slice) of one shared backing array with spare
-// capacity behind each window.
+// respare rebuilds every LineString and ring of g as consecutive windows (Sequence.Slice) of ONE shared backing array:
+// each window's spare capacity is its successor's storage (an append through one of them overwrites the first vertex
+// of the next), and the last one has free capacity behind it.
 func respare(g geom.Geometry) geom.Geometry {
 	ct := g.CoordinatesType()
-	window := func(s geom.Sequence) geom.Sequence {
-		n := s.Length()
-		fs := make([]float64, 0, 4*(n+2)*ct.Dimension())
-		pad := geom.Coordinates{XY: geom.XY{X: 12345, Y: -12345}, Type: ct}
-		add := func(c geom.Coordinates) {
-			fs = append(fs, c.X, c.Y)
-			if ct.Is3D() {
-				fs = append(fs, c.Z)
-			}
-			if ct.IsMeasured() {
-				fs = append(fs, c.M)
-			}
+	total := g.DumpCoordinates().Length()
+	fs := make([]float64, 0, (total+8)*ct.Dimension()*2)
+	type win struct{ from, to int }
+	var wins []win
+	add := func(c geom.Coordinates) {
+		fs = append(fs, c.X, c.Y)
+		if ct.Is3D() {
+			fs = append(fs, c.Z)
 		}
-		add(pad)
-		for i := 0; i < n; i++ {
+		if ct.IsMeasured() {
+			fs = append(fs, c.M)
+		}
+	}
+	// first pass: lay all elements out; second pass: cut the windows
+	var collect func(g geom.Geometry)
+	n := 0
+	put := func(s geom.Sequence) {
+		for i := 0; i < s.Length(); i++ {
 			add(s.Get(i))
 		}
-		add(pad)
-		return geom.NewSequence(fs, ct).Slice(1, n+1)
+		wins = append(wins, win{n, n + s.Length()})
+		n += s.Length()
 	}
-	line := func(l geom.LineString) geom.LineString {
-		if l.IsEmpty() {
-			return l
+	collect = func(g geom.Geometry) {
+		for _, d := range g.Dump() {
+			switch d.Type() {
+			case geom.TypeLineString:
+				put(d.MustAsLineString().Coordinates())
+			case geom.TypePolygon:
+				for _, r := range d.MustAsPolygon().DumpRings() {
+					put(r.Coordinates())
+				}
+			}
 		}
-		return geom.NewLineString(window(l.Coordinates()))
 	}
+	collect(g)
+	if len(wins) == 0 {
+		return g
+	}
+	all := geom.NewSequence(fs, ct)
+	next := 0
+	take := func() geom.Sequence {
+		w := wins[next]
+		next++
+		return all.Slice(w.from, w.to)
+	}
+	line := func(l geom.LineString) geom.LineString { return geom.NewLineString(take()) }
 	poly := func(p geom.Polygon) geom.Polygon {
-		if p.IsEmpty() {
-			return p
-		}
 		var rs []geom.LineString
-		for _, r := range p.DumpRings() {
-			rs = append(rs, line(r))
+		for range p.DumpRings() {
+			rs = append(rs, geom.NewLineString(take()))
 		}
-		return geom.NewPolygon(rs)
+		return geom.NewPolygon(rs).ForceCoordinatesType(ct)
 	}
-	switch g.Type() {
-	case geom.TypeLineString:
-		return line(g.MustAsLineString()).AsGeometry()
-	case geom.TypePolygon:
-		return poly(g.MustAsPolygon()).AsGeometry()
-	case geom.TypeMultiLineString:
-		m := g.MustAsMultiLineString()
-		var ls []geom.LineString
-		for i := 0; i < m.NumLineStrings(); i++ {
-			ls = append(ls, line(m.LineStringN(i)))
+	var rebuild func(g geom.Geometry) geom.Geometry
+	rebuild = func(g geom.Geometry) geom.Geometry {
+		switch g.Type() {
+		case geom.TypeLineString:
+			return line(g.MustAsLineString()).AsGeometry()
+		case geom.TypePolygon:
+			return poly(g.MustAsPolygon()).AsGeometry()
+		case geom.TypeMultiLineString:
+			m := g.MustAsMultiLineString()
+			var ls []geom.LineString
+			for i := 0; i < m.NumLineStrings(); i++ {
+				ls = append(ls, line(m.LineStringN(i)))
+			}
+			return geom.NewMultiLineString(ls).ForceCoordinatesType(ct).AsGeometry()
+		case geom.TypeMultiPolygon:
+			m := g.MustAsMultiPolygon()
+			var ps []geom.Polygon
+			for i := 0; i < m.NumPolygons(); i++ {
+				ps = append(ps, poly(m.PolygonN(i)))
+			}
+			return geom.NewMultiPolygon(ps).ForceCoordinatesType(ct).AsGeometry()
+		case geom.TypeGeometryCollection:
+			gc := g.MustAsGeometryCollection()
+			var ms []geom.Geometry
+			for i := 0; i < gc.NumGeometries(); i++ {
+				ms = append(ms, rebuild(gc.GeometryN(i)))
+			}
+			return geom.NewGeometryCollection(ms).ForceCoordinatesType(ct).AsGeometry()
 		}
-		return geom.NewMultiLineString(ls).ForceCoordinatesType(ct).AsGeometry()
-	case geom.TypeMultiPolygon:
-		m := g.MustAsMultiPolygon()
-		var ps []geom.Polygon
-		for i := 0; i < m.NumPolygons(); i++ {
-			ps = append(ps, poly(m.PolygonN(i)))
-		}
-		return geom.NewMultiPolygon(ps).ForceCoordinatesType(ct).AsGeometry()
-	case geom.TypeGeometryCollection:
-		gc := g.MustAsGeometryCollection()
-		var ms []geom.Geometry
-		for i := 0; i < gc.NumGeometries(); i++ {
-			ms = append(ms, respare(gc.GeometryN(i)))
-		}
-		return geom.NewGeometryCollection(ms).ForceCoordinatesType(ct).AsGeometry()
+		return g
 	}
-	return g
+	return rebuild(g)
 }
 
 func errStr(err error) string {
